@@ -775,7 +775,10 @@ def read(text, keep_comments=False):
     if info["bom"]:
         text = text[1:]
     rules = parse(text)
-    if rules and rules[0].kind == "at" and rules[0].name == "charset":
+    # only the encoding declaration the serializer itself writes is stripped: `@charset "<string>";` as the very first
+    # rule (a user-written `@charset` at-rule without a string, or further down, is ordinary content)
+    if rules and rules[0].kind == "at" and rules[0].name == "charset" and not rules[0].has_block \
+            and [t[0] for t in rules[0].prelude if t[0] not in ("ws", "comment")] == ["string"]:
         info["charset"] = serialize(rules[0].prelude)
         rules = rules[1:]
     return flatten(rules, (), keep_comments), info
